@@ -204,6 +204,8 @@ class Summariser:
             elif k == "BinaryOperator" and x.get("opcode") == "=":
                 v = var_id(A.kids(x)[0])
                 if v in self.pos:
+                    if self._helper_advance(x, v, S):
+                        continue
                     raise Unrecognised("cursor assigned at " + A.where(x))
             elif k == "MemberExpr":
                 S.members.add(x.get("name"))
@@ -211,6 +213,39 @@ class Summariser:
                 S.va_types.append(A.qtype(x))
 
     # -- loops ----------------------------------------------------------------
+    def _helper_advance(self, assign, v, S, depth=0):
+        """`pos = helper(..., pos, ...)` where the helper of the unit moves the position it is given and returns it:
+        the helper's own cursor summary is the effect of the statement"""
+        rhs = A.strip_casts(A.kids(assign)[1])
+        if rhs.get("kind") != "CallExpr" or depth > 2:
+            return False
+        name = A.callee_name(rhs)
+        fns = [f for f in self.u.functions.get(name or "", []) if self.u.body(f) is not None]
+        if len(fns) != 1:
+            return False
+        g = fns[0]
+        args = A.kids(rhs)[1:]
+        ps = self.u.params(g)
+        hits = [i for i, a in enumerate(args) if var_id(a) == v]
+        if len(hits) != 1 or len(ps) != len(args):
+            return False
+        pid = ps[hits[0]]["id"]
+        body = self.u.body(g)
+        rets = [r for r in A.walk(body) if r.get("kind") == "ReturnStmt"]
+        if not rets or not all(A.kids(r) and var_id(A.kids(r)[0]) == pid for r in rets):
+            return False
+        sub = Summariser(self.u, {pid}, {}, self.scan_calls, ())
+        sub.len_calls = self.len_calls
+        try:
+            S2 = sub.summarise([st for st in A.kids(body) if st.get("kind") != "ReturnStmt"])
+        except Unrecognised:
+            return False
+        for it in S2.items:
+            S.add(it)
+        S.members |= S2.members
+        S.notes += S2.notes
+        return True
+
     def _is_strlen_local(self, ref):
         """a local initialised with strlen(...) and never written again stands for that strlen"""
         d = self.u.by_id.get((ref.get("referencedDecl") or {}).get("id"))
